@@ -1897,3 +1897,91 @@ func ruleWrittenBytesAreTheValue(c *Ctx, rule string) {
 		c.Undecided(rule, "written-bytes-are-the-value", desc, "no (*os.File).Write in a function of the file-system backend with a []byte parameter")
 	}
 }
+
+// ruleMatcherComparesStoredWithRequest (C04.23): the single-reference matcher decides by comparing what the reference
+// recorded with what the request carries: in every string comparison of that function one of whose sides depends on the
+// request's header map, the other side depends on the reference and not on the request's header map. A "stored" value
+// that was recomputed from the request compares equal for every request.
+func ruleMatcherComparesStoredWithRequest(c *Ctx, rule string) {
+	if !c.Need(rule, "varyMatchOne") {
+		return
+	}
+	desc := "the matcher compares the request's value with the value recorded in the reference (which does not depend on the request)"
+	fn := c.A.F("varyMatchOne")
+	var hdr, ref *ssa.Parameter
+	for _, p := range fn.Params {
+		if isHTTPHeader(p.Type()) {
+			hdr = p
+		}
+		if isPtrToNamed(p.Type(), c.A.RefT) {
+			ref = p
+		}
+	}
+	if hdr == nil || ref == nil {
+		c.Undecided(rule, "matcher-compares-stored", desc, "the matcher's header / reference parameters were not recognised")
+		return
+	}
+	depends := func(v ssa.Value) (onHdr, onRef bool) {
+		c.P.TraceBack(v, TraceOpts{ThroughOps: true, ThroughExtern: true, NoParams: true, NoHeapFields: true}, func(x ssa.Value, _ []int) bool {
+			if x == ssa.Value(hdr) {
+				onHdr = true
+			}
+			if x == ssa.Value(ref) {
+				onRef = true
+			}
+			// the range over the reference's map: next -> range -> the map loaded from the reference
+			if ex, ok := x.(*ssa.Extract); ok {
+				if nx, ok := ex.Tuple.(*ssa.Next); ok {
+					if rg, ok := nx.Iter.(*ssa.Range); ok {
+						h, r := false, false
+						c.P.TraceBack(rg.X, TraceOpts{ThroughOps: true, NoParams: true, NoHeapFields: true}, func(y ssa.Value, _ []int) bool {
+							if y == ssa.Value(hdr) {
+								h = true
+							}
+							if y == ssa.Value(ref) {
+								r = true
+							}
+							return true
+						})
+						onHdr = onHdr || h
+						onRef = onRef || r
+					}
+				}
+			}
+			return true
+		})
+		return
+	}
+	n := 0
+	fns := append([]*ssa.Function{fn}, fn.AnonFuncs...)
+	for _, f := range fns {
+		instrsOf(f, func(in ssa.Instruction) {
+			bo, ok := in.(*ssa.BinOp)
+			if !ok || (bo.Op != token.EQL && bo.Op != token.NEQ) || !isStringType(bo.X.Type()) {
+				return
+			}
+			if _, isK := bo.X.(*ssa.Const); isK {
+				return
+			}
+			if _, isK := bo.Y.(*ssa.Const); isK {
+				return
+			}
+			xh, xr := depends(bo.X)
+			yh, yr := depends(bo.Y)
+			if !xh && !yh {
+				return
+			}
+			n++
+			where := c.P.ShortName(f) + "@" + c.P.InstrPos(bo)
+			ok2 := (xh && !yh && yr) || (yh && !xh && xr)
+			if ok2 {
+				c.Pass(rule, "matcher-compares-stored", desc, where)
+			} else {
+				c.Fail(rule, "matcher-compares-stored", desc, where+": both sides of the comparison depend on the request's header map (or the other side does not come from the reference); the response stored for `Accept-Language: en` matches `Accept-Language: de`", where)
+			}
+		})
+	}
+	if n == 0 {
+		c.Undecided(rule, "matcher-compares-stored", desc, "no comparison of a request value in "+c.P.ShortName(fn))
+	}
+}
